@@ -1,0 +1,20 @@
+// +build verif
+
+package defaultsize
+
+import (
+	"os"
+	"strconv"
+)
+
+// Verification hook (build tag verif): lets the simulator vary the default
+// vector and canary sizes per run. It runs after size.go's init and before
+// the init of the packages that copy these values.
+func init() {
+	if v, err := strconv.Atoi(os.Getenv("VERIF_CHUNK")); err == nil && v > 0 {
+		Chunk = v
+	}
+	if v, err := strconv.Atoi(os.Getenv("VERIF_SORT_CANARY")); err == nil && v > 0 {
+		SortCanary = v
+	}
+}
